@@ -87,7 +87,7 @@ def classify(spec, dt):
         if k == "json":
             return "valid"
         if k in ("intlist", "floatlist", "mixedlist") and spec.get("wrap") != "NumericArray":
-            return "valid" if all(isinstance(x, int) or math.isfinite(x) for x in v) and k != "floatlist" or \
+            return "valid" if all(isinstance(x, int) or math.isfinite(float(x)) for x in v) and k != "floatlist" or \
                 (k == "floatlist" and all(math.isfinite(float(x)) for x in v)) else None
         return None
     if dt == "B":
@@ -102,7 +102,7 @@ def classify(spec, dt):
         if k == "floatlist":
             if not v:
                 return "invalid"
-            return "valid" if all(math.isfinite(float(x)) for x in v) else None
+            return "valid" if all(math.isfinite(float(x)) for x in v) else "invalid"
         if k == "mixedlist":
             return "invalid"
         return "invalid" if k in ("int", "float") else None
@@ -370,7 +370,8 @@ def gen_value(r):
     if k == 3:
         return {"kind": "float", "v": gen.choice(r, ["inf", "-inf", "nan", -0.0, 1e300, 5e-324]), "boundary": True}
     if k == 4:
-        s = gen.choice(r, [gen.gen_string(r), gen.gen_string(r, 1), "a\tb", "a\nb", "", "café", "\x7f", " lead", "x" * 40])
+        s = gen.choice(r, [gen.gen_string(r), gen.gen_string(r, 1), "a\tb", "a\nb", "", "café", "\x7f", " lead", "x" * 40,
+                           "abc\n", "a\n", "\n", "ab\r"])
         return {"kind": "str", "v": s, "boundary": not G.accepts("Z", s)}
     if k == 5:
         return {"kind": "json", "v": gen.gen_json(r)}
@@ -380,7 +381,11 @@ def gen_value(r):
         return {"kind": "intlist", "v": vals, "wrap": gen.choice(r, ["list", "NumericArray"]), "boundary": True}
     if k == 8:
         n = r.randint(1, 4)
-        return {"kind": "floatlist", "v": [gen.gen_float(r) for _ in range(n)], "wrap": gen.choice(r, ["list", "NumericArray"])}
+        vals = [gen.gen_float(r) for _ in range(n)]
+        if gen.chance(r, 0.2):
+            vals[r.randrange(n)] = gen.choice(r, ["inf", "-inf", "nan"])  # (spelled as text: a case is plain data)
+        return {"kind": "floatlist", "v": vals, "wrap": gen.choice(r, ["list", "NumericArray"]),
+                "boundary": any(isinstance(x, str) for x in vals)}
     if k == 9:
         return {"kind": "mixedlist", "v": [1, 2.5, 3], "wrap": gen.choice(r, ["list", "NumericArray"])}
     if k == 10:
